@@ -77,6 +77,10 @@ class Deltas(object):
 
 
 def run(prog, rep):
+    rep.rule('R5.6', 'MsgPack object scope: a value that was skipped or refused is accounted for like a loaded one - on every normal path of every '
+                     'method the values consumed equal the cursor advances, the pending key is dropped (shared with C03 R3.5 / C07 R7.5)', floor=20)
+    from rules import c03
+    c03.check_object_scope(prog, rep, 'R5.6')
     rep.rule('R5.1', 'MsgPack array/binary read scope: on every normal path #(reader calls consuming one element) == #(++mIndex)', floor=12)
     rep.rule('R5.2', 'JSON/XML array scope load paths call LoadNextItem() exactly once, before any type test of the element', floor=10)
     rep.rule('R5.4', 'byte-container loading: no second consuming Open*Scope attempt after OpenBinaryScope failed (it has consumed or thrown)', floor=2)
